@@ -91,7 +91,9 @@ def run(ctx):
                                            inputs=dict(version_class=name, a=a.string, b=b.string), observed=bits))
         per_class[name] = dict(values=len(values), pairs=len(pairs), violating_pairs=nviol, modelled=name in modelled)
         if name in modelled:
-            n, d, _ = schemes.correspondence(ctx, cls, [], pairs[: (600 if ctx.tier == "quick" else 20000)])
+            # the model is compared on the dense pairs (same base, small variations) first, then on the head of the other streams
+            dpairs = dense.pairs(r, cls, 5 if ctx.tier == "quick" else 50, 500 if ctx.tier == "quick" else 8000)
+            n, d, _ = schemes.correspondence(ctx, cls, [], dpairs + pairs[: (600 if ctx.tier == "quick" else 20000)])
             evals += n
             diffs.extend(d[:5])
         if len(samples) < 10 and pairs:
